@@ -133,6 +133,24 @@ AREAS["C20"] = {
                   "they are sampled by the stress harness (schedules are not enumerated)",
 }
 
+AREAS["C04"] = {
+    "area": "c04", "id": 4, "level": "proof",
+    "coq": ["Base", "Store", "Properties/C04.v"],
+    "rule": "a writer process (embedded NATS + store on a fresh SQLite file, 2 generated scripts of ~20 accepted requests each: node point batches, new edges, a mirror, "
+            "edge points; thorough: 10 scripts) is killed by strace fault injection (SIGKILL at the N-th write/pwrite64/fsync/fdatasync/ftruncate on the database or its WAL, "
+            "N swept from 1 until three consecutive runs survive) and at 6 sampled times; acknowledgements are logged with O_SYNC; the file is then reopened twice by fresh "
+            "processes and everything is dumped; a run is non-trivial when the writer was killed; distinct by (script, injection point, acknowledged count)",
+    "trusted": STORE_TRUSTED + ["strace -e inject fault injection; the per-thread counting of when=N means a given N is not one fixed crash point, the sweep still visits every database write"],
+    "assumptions": STORE_ASSUME + ["SQLite in WAL mode with synchronous=NORMAL makes a committed transaction durable against process death and an uncommitted one invisible: "
+                                   "this is the machine of Store/Crash.v, assumed, and probed by the injection sweep; power loss / OS crash are outside the claim"],
+    "level_text": "proof (partial): C04_atomic_batches and C04_hash_consistent are Coq theorems (for every history, statement decomposition and crash instant the durable state is a prefix "
+                  "of the history containing every acknowledged request, with consistent hashes) about the transaction machine; each run kills a real writer at >150 database "
+                  "syscalls and checks that the reopened file equals the model after exactly the acknowledged requests or one more, has consistent hashes, one meta row, "
+                  "the same root id and signing key, and that a second reopen changes nothing (also for kills during first-time initialisation)",
+    "level_note": "partial: SQLite's WAL recovery, page-level I/O and fsync behaviour are assumed (the transaction machine) and only sampled by fault injection; first-time "
+                  "initialisation is covered by the harness only (a kill between root creation and admin creation leaves an instance without the default admin: noted, not a violation of the statement)",
+}
+
 WIP = "not yet built in this round; the design (DESIGN.md section 6) claims it and the check is being added"
 NOT_CLAIMED = {pid: WIP for pid in ["C%02d" % i for i in range(1, 21)] if pid not in AREAS}
 HOOK_COMMITS = ["6f869d9", "e935e32"]
